@@ -79,6 +79,10 @@ pub enum Recipe {
     /// an arbitrary string as the whole field value
     Raw(String),
     Missing,
+    /// the field arrives as two `Authorization:` lines (a repeated header: its value is both, joined in order — never
+    /// the exact value of a configured pair). One line is the correct value of pair i, the other: 0 the correct value of
+    /// pair j, 1 `Basic AAAA`, 2 `Bearer x`, 3 the same correct value again, 4 an empty value; `correct_first` orders them
+    TwoLines { i: u8, j: u8, kind: u8, correct_first: bool },
 }
 
 #[derive(Debug, Clone, Serialize, Deserialize)]
@@ -91,6 +95,20 @@ pub struct Case {
     pub single: bool,
     pub recipe: Recipe,
     pub method: M,
+    /// where the guarded application sits: 0 it is the root application (handler at `/`); 1 mounted at `/api/admin` as the
+    /// only item of the root (a chain of single children); 2 mounted at `/admin` next to an open route; 3 mounted at `/v1`,
+    /// its handler at `/x/:id`
+    #[serde(default)]
+    pub shape: u8,
+}
+fn target_of(case: &Case) -> &'static str {
+    ["/", "/api/admin", "/admin", "/v1/x/7"][case.shape as usize % 4]
+}
+async fn open_route() -> &'static str {
+    "open"
+}
+async fn protected_p(_id: String) -> &'static str {
+    protected().await
 }
 
 // ---------------------------------------------------------------- own base64 (RFC 4648 §4, with padding)
@@ -308,6 +326,22 @@ fn value_of(case: &Case) -> Option<String> {
         Recipe::Latin1(i) => basic(&text(case, *i).chars().map(|c| if (c as u32) < 0x100 { c as u32 as u8 } else { b'?' }).collect::<Vec<u8>>()),
         Recipe::Raw(s) => s.clone(),
         Recipe::Missing => return None,
+        Recipe::TwoLines { i, j, kind, correct_first } => {
+            let good = basic(text(case, *i).as_bytes());
+            let other = match kind % 5 {
+                0 => basic(text(case, *j).as_bytes()),
+                1 => "Basic AAAA".to_string(),
+                2 => "Bearer x".to_string(),
+                3 => good.clone(),
+                _ => String::new(),
+            };
+            // (the request writer puts `Name: value CRLF`: a value holding `CRLF Name: ` is two lines on the wire)
+            if *correct_first {
+                format!("{good}\r\nAuthorization: {other}")
+            } else {
+                format!("{other}\r\nAuthorization: {good}")
+            }
+        }
     })
 }
 
@@ -328,6 +362,7 @@ fn recipe_label(r: &Recipe) -> &'static str {
         Recipe::Latin1(_) => "latin1-encoding",
         Recipe::Raw(_) => "arbitrary-value",
         Recipe::Missing => "missing-header",
+        Recipe::TwoLines { .. } => "two-authorization-lines",
     }
 }
 fn recipe_index(r: &Recipe) -> Option<u8> {
@@ -342,6 +377,7 @@ fn recipe_index(r: &Recipe) -> Option<u8> {
         | Recipe::NoSpace(i)
         | Recipe::Spaces { i, .. }
         | Recipe::B64 { i, .. }
+        | Recipe::TwoLines { i, .. }
         | Recipe::NonUtf8 { i, .. }
         | Recipe::Latin1(i) => Some(*i),
         _ => None,
@@ -355,8 +391,21 @@ async fn protected() -> &'static str {
     "private"
 }
 
-fn with_pairs<S: AsRef<str> + Clone + Send + Sync + 'static>(v: Vec<BasicAuth<S>>, single: bool) -> Option<Ohkami> {
-    let routes = "/".GET(protected).PUT(protected).POST(protected).PATCH(protected).DELETE(protected);
+fn with_pairs<S: AsRef<str> + Clone + Send + Sync + 'static>(v: Vec<BasicAuth<S>>, single: bool, shape: u8) -> Option<Ohkami> {
+    let routes = if shape % 4 == 3 {
+        "/x/:id".GET(protected_p).PUT(protected_p).POST(protected_p).PATCH(protected_p).DELETE(protected_p)
+    } else {
+        "/".GET(protected).PUT(protected).POST(protected).PATCH(protected).DELETE(protected)
+    };
+    let guarded = with_pairs_at(v, single, routes)?;
+    Some(match shape % 4 {
+        0 => guarded,
+        1 => Ohkami::new("/api/admin".By(guarded)),
+        2 => Ohkami::new(("/open".GET(open_route), "/admin".By(guarded))),
+        _ => Ohkami::new(("/v1".By(guarded), "/v2/x".GET(open_route))),
+    })
+}
+fn with_pairs_at<S: AsRef<str> + Clone + Send + Sync + 'static>(v: Vec<BasicAuth<S>>, single: bool, routes: ohkami::__verif__::HandlerSet) -> Option<Ohkami> {
     Some(match v.as_slice() {
         [a] if single => Ohkami::with(a.clone(), routes),
         [a] => Ohkami::with([a.clone()], routes),
@@ -368,9 +417,9 @@ fn with_pairs<S: AsRef<str> + Clone + Send + Sync + 'static>(v: Vec<BasicAuth<S>
 }
 fn build(case: &Case) -> Option<Ohkami> {
     if case.owned {
-        with_pairs(case.pairs.iter().map(|(u, p)| BasicAuth { username: u.clone(), password: p.clone() }).collect(), case.single)
+        with_pairs(case.pairs.iter().map(|(u, p)| BasicAuth { username: u.clone(), password: p.clone() }).collect(), case.single, case.shape)
     } else {
-        with_pairs(case.pairs.iter().map(|(u, p)| BasicAuth { username: leak(u.clone()), password: leak(p.clone()) }).collect::<Vec<BasicAuth<&'static str>>>(), case.single)
+        with_pairs(case.pairs.iter().map(|(u, p)| BasicAuth { username: leak(u.clone()), password: leak(p.clone()) }).collect::<Vec<BasicAuth<&'static str>>>(), case.single, case.shape)
     }
 }
 
@@ -514,6 +563,7 @@ fn recipe_strategy() -> impl Strategy<Value = Recipe> {
         2 => any::<u8>().prop_map(Recipe::Latin1),
         2 => raw_value().prop_map(Recipe::Raw),
         1 => Just(Recipe::Missing),
+        2 => (any::<u8>(), any::<u8>(), 0u8..5, any::<bool>()).prop_map(|(i, j, kind, correct_first)| Recipe::TwoLines { i, j, kind, correct_first }),
     ]
 }
 
@@ -525,7 +575,7 @@ impl C13 {
         if let Some(v) = value {
             headers.push(("Authorization".to_string(), v.to_string()));
         }
-        let o = match panic::catch(std::panic::AssertUnwindSafe(|| drive::request(router, method.as_str(), "/", &headers, None))) {
+        let o = match panic::catch(std::panic::AssertUnwindSafe(|| drive::request(router, method.as_str(), target_of(case), &headers, None))) {
             Ok(Ok(o)) => o,
             Ok(Err(e)) => {
                 obs.fail("malformed-response", format!("{ctx}: {e}"));
@@ -596,7 +646,7 @@ impl C13 {
 impl Property for C13 {
     type Case = Case;
     const ID: &'static str = "C13";
-    const RULE: &'static str = "generated: 1–4 (user, password) pairs — users without `:`, passwords with colons, empty parts, Unicode and control characters, Latin-1 supplement letters, parts of 90–240 characters, later pairs derived from earlier ones (password/user extended or shortened by a character, same user, same password, `p:x`, swapped) — configured as the bare BasicAuth (one pair) or [BasicAuth; N], over &'static str or String × an Authorization value: correct for pair i; user of i with password of j; the decoded text with a character inserted/removed/replaced at a sampled position (start, end, around the colon); no colon; other scheme words and letter cases; `Basic` without space; extra spaces (doubled, leading, trailing, inside, second word); damaged base64 (padding removed/added, url-safe alphabet, foreign symbol, truncated, extended, unused bits set); credentials with bytes that are not UTF-8 at the start, in the middle and at the END; base64 of arbitrary bytes; the ISO-8859-1 bytes of the configured text; arbitrary printable values; missing header × 7 methods. A router with the fang on the root is built per case; the correct value of the pair the recipe is derived from is sent first (control), then the case's value. Oracle: own RFC 4648 encoder; the value equals `Basic ` + base64(u:p) of a configured pair ⇒ 200 and the handler ran once; otherwise 401, every WWW-Authenticate value starts with `Basic`, the handler did not run; never a panic. Non-trivial = a refused value derived from a configured pair by one change, or an admitted value when several pairs are configured; distinct by case.";
+    const RULE: &'static str = "generated: 1–4 (user, password) pairs — users without `:`, passwords with colons, empty parts, Unicode and control characters, Latin-1 supplement letters, parts of 90–240 characters, later pairs derived from earlier ones (password/user extended or shortened by a character, same user, same password, `p:x`, swapped) — configured as the bare BasicAuth (one pair) or [BasicAuth; N], over &'static str or String × an Authorization value: correct for pair i; user of i with password of j; the decoded text with a character inserted/removed/replaced at a sampled position (start, end, around the colon); no colon; other scheme words and letter cases; `Basic` without space; extra spaces (doubled, leading, trailing, inside, second word); damaged base64 (padding removed/added, url-safe alphabet, foreign symbol, truncated, extended, unused bits set); credentials with bytes that are not UTF-8 at the start, in the middle and at the END; base64 of arbitrary bytes; the ISO-8859-1 bytes of the configured text; arbitrary printable values; missing header; the field repeated (two Authorization lines, one of them correct) × 7 methods. A router is built per case, the guarded application being the root or mounted (as the only item at `/api/admin`, next to an open route, with a param route below `/v1`); the correct value of the pair the recipe is derived from is sent first (control), then the case's value. Oracle: own RFC 4648 encoder; the value equals `Basic ` + base64(u:p) of a configured pair ⇒ 200 and the handler ran once; otherwise 401, every WWW-Authenticate value starts with `Basic`, the handler did not run; never a panic. Non-trivial = a refused value derived from a configured pair by one change, or an admitted value when several pairs are configured; distinct by case.";
     const ASSUMPTIONS: &'static [&'static str] = &[
         "usernames contain no `:` (RFC 7617)",
         "don't-care: optional whitespace around the field value (C02's soft class); the scheme word in another letter case is refused, as the statement spells it",
@@ -634,7 +684,7 @@ impl Property for C13 {
             1 => Just(M::HEAD),
             1 => Just(M::OPTIONS),
         ];
-        (pairs_strategy(), any::<bool>(), any::<bool>(), recipe_strategy(), method).prop_map(|(pairs, owned, single, recipe, method)| Case { pairs, owned, single, recipe, method }).boxed()
+        (pairs_strategy(), any::<bool>(), any::<bool>(), recipe_strategy(), method, prop_oneof![5 => Just(0u8), 1 => Just(1u8), 1 => Just(2u8), 1 => Just(3u8)]).prop_map(|(pairs, owned, single, recipe, method, shape)| Case { pairs, owned, single, recipe, method, shape }).boxed()
     }
 
     fn check(&self, case: &Case, obs: &mut Obs) {
